@@ -158,6 +158,17 @@ def extra_deps(cr, T, y):
     return out
 
 
+def x_edges(cr, T, y):
+    """the edges of a yield the extended Lean model M1+X (Model/DelayedX.lean) reads: (`setup_tasks` as
+    Task.__init__ leaves them: `setup`, then -- `_init_getargs` / `result_dep(setup_dep=True)` -- the sources of getargs
+    that are not listed in `setup`; `calc_dep`)"""
+    setup = [ref_name(cr, T, r) for r in (y.get('setup') or [])]
+    for arg, src in sorted((y.get('getargs') or {}).items()):
+        if ref_name(cr, T, src) not in setup:
+            setup.append(ref_name(cr, T, src))
+    return setup, [cd['task'] for cd in y.get('calc_dep') or []]
+
+
 def make_tasks(cr, T):
     """what generate_tasks(T, creator()) returns: list of dicts name/deps/fileDep/targets/group (OrderedDict order).
     `ret`: the creator is a generator of dicts ('gen'), returns ONE dict ('dict': named by its basename, else by T),
@@ -170,7 +181,7 @@ def make_tasks(cr, T):
         name = y['basename'] if y.get('basename') else T
         return [{'name': name, 'deps': list(y['task_dep']), 'fileDep': list(y.get('file_dep', [])),
                  'targets': list(y['targets']), 'group': False, 'utd': oracle_utd(y), 'fails': y['fails'],
-                 'extra': extra_deps(cr, T, y)}]
+                 'extra': extra_deps(cr, T, y), 'setup': x_edges(cr, T, y)[0], 'calcDep': x_edges(cr, T, y)[1]}]
     out = {}
     order = []
     for y in cr['yields']:
@@ -185,22 +196,31 @@ def make_tasks(cr, T):
             order.append(name)
         out[name] = {'name': name, 'deps': list(y['task_dep']), 'fileDep': list(y.get('file_dep', [])),
                      'targets': list(y['targets']), 'group': False, 'utd': oracle_utd(y), 'fails': y['fails'],
-                     'extra': extra_deps(cr, T, y)}
+                     'extra': extra_deps(cr, T, y), 'setup': x_edges(cr, T, y)[0], 'calcDep': x_edges(cr, T, y)[1]}
     if not order:
         return [{'name': T, 'deps': [], 'fileDep': [], 'targets': [], 'group': True, 'extra': []}]
     return [out[n] for n in order]
 
 
 def unmodelled(case):
-    """shapes outside the Lean model M1+ (task_dep edges only): the case runs monitors-only, and is counted"""
+    """shapes outside the Lean models: the case runs monitors-only, and is counted.  Wave 5: created tasks with
+    setup / calc_dep / getargs are inside the extended model M1+X (`extended(case)`); what is left is a creator that
+    raises (the exception aborts the run; no model of the traceback path)."""
     why = set()
     for cr in case['creators']:
         if cr.get('ret') == 'raises':
             why.add('creator-raises')
+    return sorted(why)
+
+
+def extended(case):
+    """the edge kinds of created tasks that need the extended model M1+X (Model/DelayedX.lean); [] = plain M1+"""
+    why = set()
+    for cr in case['creators']:
         for y in cr['yields']:
             for k in ('setup', 'calc_dep', 'getargs'):
                 if y.get(k):
-                    why.add('created-task-with-' + k)
+                    why.add(k)
     return sorted(why)
 
 
@@ -331,7 +351,12 @@ def to_request(case, obs, an=None, op='check'):
            'loaders': [{'creator': c, 'exec': (ix[case['creators'][c]['executed']]
                                                if case['creators'][c]['executed'] else None),
                         'regex': bool(case['creators'][c]['regex'])} for p, c in an['loaders']],
+           'x': bool(extended(case)),
+           'delivers': [[ix[t['name']], [ix[d] for d in t['delivers']['task_dep']]] for t in case['static']
+                        if t.get('kind') == 'calc' and not t['fails']],
            'make': [[c, ix[T], [{'name': ix[d['name']], 'deps': [ix[x] for x in d['deps'] + d.get('extra', [])],
+                                 'tdeps': [ix[x] for x in d['deps']], 'setup': [ix[x] for x in d.get('setup', [])],
+                                 'calcDep': [ix[x] for x in d.get('calcDep', [])],
                                  'fileDep': [ix[x] for x in d['fileDep']],
                                  'targets': [ix[x] for x in d['targets']], 'act': not d['group']}
                                 for d in lst]] for c, T, lst in an['make']],
@@ -1311,6 +1336,20 @@ def count_case(st, case, obs, ans):
                 st.count('created-task:uptodate-callable=%s' % y['utd_fn'])
     for why in unmodelled(case):
         st.count('monitors-only(outside M1+):%s' % why)
+    if extended(case) and ans.get('x'):
+        # K through the extended model M1+X (Model/DelayedX.lean): which of its new transitions the accepted run took
+        st.count('K:extended-model(M1+X)')
+        for why in extended(case):
+            st.count('K:extended-model(M1+X):created-task-with-%s' % why)
+        xf = ans.get('x_features') or {}
+        for key, label in (('setup_two_selects', 'X:selectStep:setup-task-selected-twice-then-started'),
+                           ('setup_not_scheduled', 'X:selectStep:setup-owner-utd-or-unmet(setup-tasks-not-scheduled)'),
+                           ('calc_processed', 'X:addWaitCalc/wakeOne:calc_dep-list-processed'),
+                           ('calc_delivered', 'X:calcNode:task_dep-delivered-by-calc_dep')):
+            if xf.get(key):
+                st.count(label, xf[key])
+        if ans.get('accept') and xf.get('start_after_all') is False:
+            st.count('X:startAfterOK-false-on-accepted-model-run')
     if obs.get('getarg'):
         st.count('getargs-values-checked', len(obs['getarg']))
     if obs.get('creator_kw'):
